@@ -398,7 +398,7 @@ class World:
         if tid != 0:
           for cell, v in d['trial'].items():
             if v != 'None':
-              req.delta.add(trial_id=str(tid), metadatum=key_value_pb2.KeyValue(ns=CELLS[cell][0], key=CELLS[cell][1], value=v))
+              req.delta.add(trial_id=str(tid) if tid > 0 else '0', metadatum=key_value_pb2.KeyValue(ns=CELLS[cell][0], key=CELLS[cell][1], value=v))
       r = api.UpdateMetadata(req)
       return 'ErrorDetails' if r.error_details else 'Empty'
     if rpc == 'ListOptimalTrials':
